@@ -106,6 +106,278 @@ def _const(src, name, path):
     return int(m.group(1))
 
 
+# ---- pass 7: more of the model's literals and structure regenerated from the source (ast)
+_TIE_MODULES = [
+    ("file", "biotite/file.py", ["wrap_string", "TextFile.read", "TextFile.write", "TextFile.write_iter", "TextFile.__copy_fill__"]),
+    ("fasta_file", "biotite/sequence/io/fasta/file.py", ["FastaFile.__init__", "FastaFile.read", "FastaFile.__setitem__", "FastaFile.__getitem__",
+                                                       "FastaFile.__delitem__", "FastaFile._find_entries", "FastaFile.read_iter", "FastaFile.write_iter",
+                                                       "FastaFile.__copy_create__", "FastaFile.__copy_fill__"]),
+    ("fasta_convert", "biotite/sequence/io/fasta/convert.py", ["get_sequence", "get_sequences", "set_sequence", "set_sequences", "get_alignment", "set_alignment",
+                                                             "_convert_to_sequence", "_process_protein_sequence", "_process_nucleotide_sequence", "_convert_to_string"]),
+    ("fastq_file", "biotite/sequence/io/fastq/file.py", ["FastqFile.__init__", "FastqFile.read", "FastqFile.get_seq_string", "FastqFile.get_quality", "FastqFile.__setitem__",
+                                                       "FastqFile.__delitem__", "FastqFile._find_entries", "FastqFile.read_iter", "FastqFile.write_iter",
+                                                       "FastqFile.__copy_create__", "FastqFile.__copy_fill__", "_score_str_to_scores", "_scores_to_score_str", "_convert_offset"]),
+    ("fastq_convert", "biotite/sequence/io/fastq/convert.py", ["get_sequence", "get_sequences", "set_sequence", "set_sequences", "_convert_to_string"]),
+    ("gb_annotation", "biotite/sequence/io/genbank/annotation.py", ["get_annotation", "_parse_locs", "_parse_single_loc", "_set_qual", "set_annotation", "_check_expressible", "_convert_to_loc_string"]),
+    ("gb_sequence", "biotite/sequence/io/genbank/sequence.py", ["get_raw_sequence", "get_sequence", "get_annotated_sequence", "_field_to_seq_string", "_convert_seq_str", "_get_seq_start", "set_sequence", "set_annotated_sequence"]),
+    ("gb_file", "biotite/sequence/io/genbank/file.py", ["GenBankFile.__init__", "GenBankFile.read", "GenBankFile.get_fields", "GenBankFile.get_indices", "GenBankFile.set_field", "GenBankFile.__getitem__",
+                                                      "GenBankFile.__setitem__", "GenBankFile.__delitem__", "GenBankFile.insert", "GenBankFile.append", "GenBankFile._find_field_indices",
+                                                      "GenBankFile._get_field_content", "GenBankFile._to_lines", "GenBankFile._translate_idx", "GenBankFile.__copy_fill__", "MultiFile.__iter__"]),
+    ("gb_metadata", "biotite/sequence/io/genbank/metadata.py", ["get_locus", "get_definition", "get_accession", "get_version", "get_gi", "get_db_link", "get_source", "_expect_single_field", "set_locus"]),
+    ("gff_file", "biotite/sequence/io/gff/file.py", ["GFFFile.__init__", "GFFFile.read", "GFFFile.insert", "GFFFile.append", "GFFFile.append_directive", "GFFFile.directives", "GFFFile.__setitem__",
+                                                   "GFFFile.__getitem__", "GFFFile.__delitem__", "GFFFile._index_entries", "GFFFile._create_line", "GFFFile._parse_attributes",
+                                                   "GFFFile.__copy_fill__", "_quote_value"]),
+    ("gff_convert", "biotite/sequence/io/gff/convert.py", ["get_annotation", "set_annotation"]),
+    ("general", "biotite/sequence/io/general.py", ["load_sequence", "save_sequence", "load_sequences", "save_sequences"]),
+]
+
+
+def _tie_functions(tree):
+    import ast
+    out = {}
+    for n in tree.body:
+        if isinstance(n, ast.FunctionDef):
+            out[n.name] = n
+        elif isinstance(n, ast.ClassDef):
+            for m in n.body:
+                if isinstance(m, ast.FunctionDef):
+                    out[f"{n.name}.{m.name}"] = m
+    return out
+
+
+def _tie_tokens(fn):
+    """Structure of a function that does not depend on names of locals, comments, docstrings or error texts:
+    constants, comparison / arithmetic / boolean operators, control flow, called names, raised classes, defaults."""
+    import ast
+    toks = []
+
+    def nm(x):
+        if isinstance(x, ast.Name):
+            return x.id
+        if isinstance(x, ast.Attribute):
+            return "." + x.attr
+        if isinstance(x, ast.Call):
+            return nm(x.func)
+        return type(x).__name__
+
+    class V(ast.NodeVisitor):
+        def visit_Raise(self, n):
+            toks.append("raise:" + (nm(n.exc) if n.exc is not None else "reraise"))      # the message is not part of the tie
+
+        def visit_Call(self, n):
+            if nm(n.func) == ".warn":
+                toks.append("call:.warn")
+                return
+            toks.append("call:" + nm(n.func) + "/" + str(len(n.args)) + "".join("," + k.arg for k in n.keywords if k.arg))
+            self.generic_visit(n)
+
+        def visit_Compare(self, n):
+            toks.append("cmp:" + ",".join(type(o).__name__ for o in n.ops))
+            self.generic_visit(n)
+
+        def visit_BinOp(self, n):
+            toks.append("bin:" + type(n.op).__name__)
+            self.generic_visit(n)
+
+        def visit_BoolOp(self, n):
+            toks.append("bool:" + type(n.op).__name__ + str(len(n.values)))
+            self.generic_visit(n)
+
+        def visit_UnaryOp(self, n):
+            toks.append("un:" + type(n.op).__name__)
+            self.generic_visit(n)
+
+        def visit_AugAssign(self, n):
+            toks.append("aug:" + type(n.op).__name__)
+            self.generic_visit(n)
+
+        def visit_Constant(self, n):
+            toks.append("c:" + repr(n.value))
+
+        def visit_JoinedStr(self, n):
+            toks.append("fstr")
+            self.generic_visit(n)
+
+        def visit_Slice(self, n):
+            toks.append("slice:" + "".join("1" if x is not None else "0" for x in (n.lower, n.upper, n.step)))
+            self.generic_visit(n)
+
+        def visit_FunctionDef(self, n):      # nested helper (generators in write_iter)
+            toks.append("def")
+            self.generic_visit(n)
+
+        def generic_visit(self, n):
+            if isinstance(n, (ast.For, ast.While, ast.If, ast.IfExp, ast.Return, ast.Yield, ast.YieldFrom, ast.Try, ast.ExceptHandler,
+                              ast.Break, ast.Continue, ast.Delete, ast.ListComp, ast.DictComp, ast.Starred, ast.With, ast.Assign, ast.Subscript,
+                              ast.Tuple, ast.List, ast.Dict, ast.Attribute)):
+                toks.append(type(n).__name__ + (":" + n.attr if isinstance(n, ast.Attribute) and isinstance(n.value, ast.Name) and n.value.id in ("self", "clone", "Location", "np", "file") else ""))
+            super().generic_visit(n)
+
+    a = fn.args
+    defaults = [None] * (len(a.args) - len(a.defaults)) + list(a.defaults)
+    for arg, d in zip(a.args, defaults):
+        toks.append("arg:" + arg.arg + ("=" + ast.unparse(d) if d is not None else ""))
+    for arg, d in zip(a.kwonlyargs, a.kw_defaults):
+        toks.append("kwarg:" + arg.arg + ("=" + ast.unparse(d) if d is not None else ""))
+    if a.vararg:
+        toks.append("vararg:" + a.vararg.arg)
+    body = fn.body
+    if body and isinstance(body[0], ast.Expr) and isinstance(body[0].value, ast.Constant) and isinstance(body[0].value.value, str):
+        body = body[1:]
+    for st in body:
+        V().visit(st)
+    return toks
+
+
+def _tie_facts(src_root):
+    """named literals of the anchored source that the hand-written Lean model hard-codes"""
+    import ast
+    import hashlib
+
+    facts, fps, dump = {}, {}, []
+    trees = {}
+    for mod, rel, names in _TIE_MODULES:
+        path = os.path.join(src_root, rel)
+        tree = ast.parse(open(path).read())
+        fns = _tie_functions(tree)
+        trees[mod] = fns
+        rows = []
+        for name in names:
+            if name not in fns:
+                raise ValueError(f"function {name} not found in {rel}")
+            toks = _tie_tokens(fns[name])
+            h = int(hashlib.sha256("\n".join(toks).encode()).hexdigest()[:14], 16)
+            rows.append((name, h))
+            dump.append(f"{mod}:{name} [{h}] " + " ".join(t.replace("-/", "- /") for t in toks))
+        fps[mod] = rows
+
+    def consts_cmp_sub0(fn):
+        """string constants compared with <name>[0]"""
+        out = []
+        for n in ast.walk(fn):
+            if isinstance(n, ast.Compare) and isinstance(n.left, ast.Subscript) and isinstance(n.left.slice, ast.Constant) and n.left.slice.value == 0:
+                for c in n.comparators:
+                    if isinstance(c, ast.Constant) and isinstance(c.value, str):
+                        out.append((type(n.ops[0]).__name__, c.value))
+        return out
+
+    def one(xs, what):
+        xs = list(dict.fromkeys(xs))
+        if len(xs) != 1:
+            raise ValueError(f"{what}: expected exactly one value in the source, found {xs}")
+        return xs[0]
+
+    fa, fq = trees["fasta_file"], trees["fastq_file"]
+    facts["fastaHeaderChar"] = one([v for _, v in consts_cmp_sub0(fa["FastaFile._find_entries"])], "FASTA header character in _find_entries")
+    facts["fastaCommentChar"] = one([v for o, v in consts_cmp_sub0(fa["FastaFile.read"]) if o == "NotEq"], "FASTA comment character in read")
+    facts["fastaHeaderPrefix"] = one([n.left.value for n in ast.walk(fa["FastaFile.__setitem__"]) if isinstance(n, ast.BinOp) and isinstance(n.op, ast.Add)
+                                      and isinstance(n.left, ast.Constant) and isinstance(n.left.value, str)], "FASTA header prefix in __setitem__")
+    cq = consts_cmp_sub0(fq["FastqFile._find_entries"])
+    facts["fastqLineStartChars"] = [v for _, v in cq]                      # '@' then '+', in the order of the tests
+    facts["fastqIdPrefix"] = one([n.left.value for n in ast.walk(fq["FastqFile.__setitem__"]) if isinstance(n, ast.BinOp) and isinstance(n.op, ast.Add)
+                                  and isinstance(n.left, ast.Constant) and isinstance(n.left.value, str)], "FASTQ identifier prefix")
+    rng_cmp = [(type(n.ops[0]).__name__, n.comparators[0].value) for n in ast.walk(fq["_scores_to_score_str"])
+               if isinstance(n, ast.Compare) and isinstance(n.comparators[0], ast.Constant) and isinstance(n.comparators[0].value, int)]
+    if [o for o, _ in rng_cmp] != ["Lt", "Gt"]:
+        raise ValueError(f"score range guard of _scores_to_score_str not of the form (x < lo) | (x > hi): {rng_cmp}")
+    facts["scoreLo"], facts["scoreHi"] = rng_cmp[0][1], rng_cmp[1][1]
+    facts["scoreDtypes"] = [n.attr for n in ast.walk(fq["_scores_to_score_str"]) if isinstance(n, ast.Attribute) and isinstance(n.value, ast.Name) and n.value.id == "np" and n.attr.startswith(("int", "uint"))] + \
+        ["|"] + [(n.attr if isinstance(n, ast.Attribute) else n.id) for c in ast.walk(fq["_score_str_to_scores"]) if isinstance(c, ast.Call)
+                 for n in list(c.args) + [k.value for k in c.keywords] if (isinstance(n, ast.Attribute) and n.attr.startswith(("int", "uint"))) or (isinstance(n, ast.Name) and n.id == "int")]
+
+    an, sq, gf = trees["gb_annotation"], trees["gb_sequence"], trees["gb_file"]
+
+    def regexes(fn):
+        return [c.args[0].value for c in ast.walk(fn) if isinstance(c, ast.Call) and isinstance(c.func, ast.Attribute) and c.func.attr == "compile"
+                and c.args and isinstance(c.args[0], ast.Constant)]
+    facts["qualifierRegex"] = one(regexes(an["get_annotation"]), "qualifier regex of get_annotation")
+    facts["originRegex"] = one(regexes(sq["_field_to_seq_string"]), "regex of _field_to_seq_string")
+    facts["originNumberFormat"] = one([n.value for n in ast.walk(sq["set_sequence"]) if isinstance(n, ast.Constant) and isinstance(n.value, str) and "{" in n.value], "position format of set_sequence")
+    sw = [c.args[0] for c in ast.walk(an["_parse_locs"]) if isinstance(c, ast.Call) and isinstance(c.func, ast.Attribute) and c.func.attr == "startswith"]
+    facts["locKeywords"] = [e.value for a in sw for e in (a.elts if isinstance(a, ast.Tuple) else [a])]
+    facts["locSeparators"] = [n.left.value for n in ast.walk(an["_parse_single_loc"]) if isinstance(n, ast.Compare) and isinstance(n.ops[0], ast.In) and isinstance(n.left, ast.Constant)]
+    facts["locPrintLiterals"] = [n.value for n in ast.walk(an["_convert_to_loc_string"]) if isinstance(n, ast.Constant) and isinstance(n.value, str) and n.value.strip()
+                                 and not n.value.lstrip().startswith("Create")]
+    tl = gf["GenBankFile._to_lines"]
+    facts["gbLimits"] = [n.comparators[0].value for n in ast.walk(tl) if isinstance(n, ast.Compare) and isinstance(n.ops[0], ast.Gt)
+                         and isinstance(n.comparators[0], ast.Constant) and isinstance(n.comparators[0].value, int)]
+    facts["gbNameColumn"] = one([int(n.format_spec.values[0].value) for n in ast.walk(tl) if isinstance(n, ast.FormattedValue) and n.format_spec is not None
+                                 and n.format_spec.values and isinstance(n.format_spec.values[0], ast.Constant) and str(n.format_spec.values[0].value).isdigit()], "name column width of _to_lines")
+    facts["gbHeaderPad"] = one([n.right.value for n in ast.walk(tl) if isinstance(n, ast.BinOp) and isinstance(n.op, ast.Mult) and isinstance(n.right, ast.Constant)], "padding of the FEATURES header")
+    facts["gbSliceWidths"] = sorted({x.value for fn in (gf["GenBankFile.__getitem__"], gf["GenBankFile._find_field_indices"], gf["GenBankFile._get_field_content"])
+                                     for n in ast.walk(fn) if isinstance(n, ast.Slice) for x in (n.lower, n.upper) if isinstance(x, ast.Constant) and isinstance(x.value, int)}
+                                    | {k.value.value for n in ast.walk(gf["GenBankFile.__getitem__"]) if isinstance(n, ast.Call) for k in n.keywords
+                                       if k.arg == "indent" and isinstance(k.value, ast.Constant)})
+    facts["gbTerminator"] = one([v for fn in (gf["GenBankFile._find_field_indices"], gf["MultiFile.__iter__"], tl) for n in ast.walk(fn)
+                                 if isinstance(n, ast.Constant) and isinstance((v := n.value), str) and v.strip() == "//"], "terminator literal")
+    g = trees["gff_file"]
+    facts["gffColumns"] = one([n.comparators[0].value for n in ast.walk(g["GFFFile.__getitem__"]) if isinstance(n, ast.Compare) and isinstance(n.left, ast.Call)
+                               and getattr(n.left.func, "id", "") == "len" and isinstance(n.comparators[0], ast.Constant)], "column count of GFFFile.__getitem__")
+    facts["gffGetitemLiterals"] = [n.value for n in ast.walk(g["GFFFile.__getitem__"]) if isinstance(n, ast.Constant) and isinstance(n.value, str) and len(n.value) <= 2]
+    facts["gffCreateLineLiterals"] = [n.value for n in ast.walk(g["GFFFile._create_line"]) if isinstance(n, ast.Constant) and isinstance(n.value, str) and len(n.value) <= 2]
+    facts["gffIndexLiterals"] = [n.value for n in ast.walk(g["GFFFile._index_entries"]) if isinstance(n, ast.Constant) and isinstance(n.value, str) and len(n.value) <= 5]
+    facts["gffValueEscape"] = [n.value for n in ast.walk(g["_quote_value"]) if isinstance(n, ast.Constant) and isinstance(n.value, str) and len(n.value) <= 3]
+    facts["gffInitDirective"] = [a.value for c in ast.walk(g["GFFFile.__init__"]) if isinstance(c, ast.Call) and getattr(c.func, "attr", "") == "append_directive" for a in c.args]
+    gc = trees["gff_convert"]
+    facts["gffIdKey"] = one([n.value for fn in gc.values() for n in ast.walk(fn) if isinstance(n, ast.Constant) and n.value == "ID"] or [], "the 'ID' attribute name in gff/convert.py")
+    # Location.Defect members in definition order (auto() gives 1, 2, 4, ... in this order)
+    p_ann = os.path.join(src_root, "biotite/sequence/annotation.py")
+    cls = next((c for n in ast.parse(open(p_ann).read()).body if isinstance(n, ast.ClassDef) and n.name == "Location" for c in n.body
+                if isinstance(c, ast.ClassDef) and c.name == "Defect"), None)
+    if cls is None:
+        raise ValueError("Location.Defect not found")
+    facts["defectMembers"] = [f"{t.id}={ast.unparse(a.value)}" for a in cls.body if isinstance(a, ast.Assign) for t in a.targets]
+    # default values of the public entry points
+    defs = []
+    for mod, _, names in _TIE_MODULES:
+        for name in names:
+            if name.split(".")[-1].startswith("_") and not name.endswith("__init__"):
+                continue
+            a = trees[mod][name].args
+            dd = [None] * (len(a.args) - len(a.defaults)) + list(a.defaults)
+            for arg, d in zip(a.args, dd):
+                if d is not None:
+                    defs.append(f"{mod}:{name}({arg.arg}={ast.unparse(d)})")
+    facts["defaults"] = defs
+    return facts, fps, dump
+
+
+def _lstr(x):
+    return '"' + "".join({"\\": "\\\\", '"': '\\"', "\t": "\\t", "\n": "\\n"}.get(c, c) for c in x) + '"'
+
+
+def _lchar(x, what):
+    if len(x) != 1:
+        raise ValueError(f"{what}: a single character expected, found {x!r}")
+    return "'" + {"'": "\\'", "\\": "\\\\", "\t": "\\t"}.get(x, x) + "'"
+
+
+def _tie_lean(facts, fps, dump):
+    L = ["", "/-! ## pass 7: literals and structure of the anchored functions (Python `ast`) -/"]
+    for k in ("fastaHeaderChar", "fastaCommentChar", "fastaHeaderPrefix", "fastqIdPrefix"):
+        L.append(f"def {k} : Char := {_lchar(facts[k], k)}")
+    L.append("def fastqLineStartChars : List Char := [" + ", ".join(_lchar(c, "fastqLineStartChars") for c in facts["fastqLineStartChars"]) + "]")
+    L.append(f"def scoreLo : Int := {facts['scoreLo']}")
+    L.append(f"def scoreHi : Int := {facts['scoreHi']}")
+    for k in ("qualifierRegex", "originRegex", "originNumberFormat", "gbTerminator", "gffIdKey"):
+        L.append(f"def {k} : String := {_lstr(facts[k])}")
+    for k in ("scoreDtypes", "locKeywords", "locSeparators", "locPrintLiterals", "gffGetitemLiterals", "gffCreateLineLiterals", "gffIndexLiterals",
+              "gffValueEscape", "gffInitDirective", "defectMembers", "defaults"):
+        L.append(f"def {k} : List String := [" + ", ".join(_lstr(x) for x in facts[k]) + "]")
+    for k in ("gbLimits", "gbSliceWidths"):
+        L.append(f"def {k} : List Nat := [" + ", ".join(str(x) for x in facts[k]) + "]")
+    for k in ("gbNameColumn", "gbHeaderPad", "gffColumns"):
+        L.append(f"def {k} : Nat := {facts[k]}")
+    L.append("/-- per function: hash of its structure (constants, operators, control flow, called names, raised classes, defaults;")
+    L.append("independent of names of locals, comments, docstrings and error texts).  The token lists are at the end of this file. -/")
+    for mod, rows in fps.items():
+        L.append(f"def fp_{mod} : List (String × Nat) := [" + ", ".join(f"({_lstr(n)}, {h})" for n, h in rows) + "]")
+    L.append("/- token lists behind the hashes (for reading a diff):")
+    L += [d.replace("/-", "/ -") for d in dump]
+    L.append("-/")
+    return L
+
+
 def gen_lean():
     import ast
     import string
@@ -160,7 +432,10 @@ def gen_lean():
         f"def symbolsPerChunk : Nat := {chunk}",
         f"def chunksPerLine : Nat := {chunks}",
         f"def symbolsPerLine : Nat := {per_line}",
-        "end BiotiteModel.Gen.C12", ""]
+    ]
+    facts, fps, dump = _tie_facts(paths.SRC)
+    body += _tie_lean(facts, fps, dump)
+    body += ["end BiotiteModel.Gen.C12", ""]
     return {"BiotiteModel/Gen/C12.lean": "\n".join(body)}
 
 
